@@ -320,7 +320,7 @@ def exhaustive_ext(tier, rng):
 
 
 def gen_corr(tier, rng):
-    n = 400 if tier == "quick" else 12000
+    n = 400 if tier == "quick" else 9000
     out = covering(rng) + exhaustive_ext(tier, rng)
     out += [gen_case(rng, tier) for _ in range(n)]
     return out
